@@ -734,7 +734,12 @@ class GEA:
             # comparison is the comparison of their variants and payloads
             # (only the value bound to a local is read under the valuation; variables inside it -- a loop variable --
             # stay symbolic, as in every other atom)
-            red = _eq_literals(self.resolve_root(t0[3][0], val), self.resolve_root(t0[3][1], val), EQ_CALLEES[t0[1]])
+            ra, rb_ = self.resolve_root(t0[3][0], val), self.resolve_root(t0[3][1], val)
+            red = _eq_literals(ra, rb_, EQ_CALLEES[t0[1]])
+            if red is None and ((ra is not t0[3][0] and ra[0] == "const") or (rb_ is not t0[3][1] and rb_[0] == "const")):
+                # a constant chosen on another path (`kind.content_type()` for a known kind) compared with something: the
+                # comparison with that constant
+                red = (t0[0], t0[1], t0[2], (ra if ra[0] == "const" else t0[3][0], rb_ if rb_[0] == "const" else t0[3][1]))
             if red is not None:
                 neg_ = False
                 t1 = term
@@ -776,6 +781,12 @@ class GEA:
             # `x.is_none()` / `x.is_some()` on a value bound to a local on another path: the definition selected in this
             # valuation says which variant it is (as for a `match` on the local)
             r = self.resolve_root(ba[0][1], val) if ba[0][1][0] == "phi" else ba[0][1]
+            if r[0] == "sum":
+                sel = val.get(("def", r[2]))
+                if sel is not None and len(sel) == 1 and next(iter(sel))[0] != "param":
+                    dt = self.prov.def_term(next(iter(sel)))
+                    if dt[0] == "agg" and isinstance(dt[1], tuple) and dt[1][0] == "adt" and dt[1][2] == r[3] and len(dt[2]) == 1:
+                        r = dt[2][0][1]
             if r[0] == "agg" and isinstance(r[1], tuple) and r[1][0] == "adt":
                 vname = norm_variant_name(r[1][2]) if r[1][1] in P.STD_SUM_TYPES else r[1][2]
                 if vname in (ba[1], ba[2]) and ba[1] != ba[2]:
